@@ -2,6 +2,10 @@
 
 package bfe_http2
 
+import "time"
+
+func timeAfterMs(ms int) <-chan time.Time { return time.After(time.Duration(ms) * time.Millisecond) }
+
 // C36: exposes adjustStreamPriority over a harness-owned stream map.
 
 // VerifC36Tree is a map of streams as serverConn keeps it plus the list of every stream object ever created.
@@ -49,4 +53,84 @@ func (t *VerifC36Tree) VerifC36Rows() [][4]int {
 		out = append(out, [4]int{int(st.id), p, int(st.weight), o})
 	}
 	return out
+}
+
+// ---- live connection: read the priority tree of a running serverConn on its serve goroutine ----
+
+// VerifC36LiveConn gives access to the serverConn created by the next ServeConn call.
+type VerifC36LiveConn struct {
+	ready chan *serverConn
+	sc    *serverConn
+	seen  map[*stream]bool
+	order []*stream
+}
+
+// VerifC36Capture must be called before ServeConn; the returned value attaches to that connection.
+func VerifC36Capture() *VerifC36LiveConn {
+	lc := &VerifC36LiveConn{ready: make(chan *serverConn, 1), seen: make(map[*stream]bool)}
+	testHookGetServerConn = func(sc *serverConn) {
+		sc.testHookCh = make(chan func(int))
+		testHookGetServerConn = nil
+		lc.ready <- sc
+	}
+	return lc
+}
+
+// VerifC36LiveRows runs on the serve loop (testHookCh) and returns (id, parent id or 0, weight, open) for every
+// stream object seen so far in sc.streams (closed ones are remembered), newest first; ok = false when the serve
+// loop does not answer within the deadline (it is stuck).
+func (lc *VerifC36LiveConn) VerifC36LiveRows(deadlineMs int) (rows [][4]int, ok bool) {
+	if lc.sc == nil {
+		select {
+		case lc.sc = <-lc.ready:
+		case <-timeAfterMs(deadlineMs):
+			return nil, false
+		}
+	}
+	sc := lc.sc
+	res := make(chan [][4]int, 1)
+	fn := func(int) {
+		var fresh []*stream
+		for _, st := range sc.streams {
+			if !lc.seen[st] {
+				lc.seen[st] = true
+				fresh = append(fresh, st)
+			}
+		}
+		for len(fresh) > 0 { // insert by increasing id
+			m := 0
+			for i := range fresh {
+				if fresh[i].id < fresh[m].id {
+					m = i
+				}
+			}
+			lc.order = append(lc.order, fresh[m])
+			fresh = append(fresh[:m], fresh[m+1:]...)
+		}
+		out := make([][4]int, 0, len(lc.order))
+		for i := len(lc.order) - 1; i >= 0; i-- {
+			st := lc.order[i]
+			p := 0
+			if st.parent != nil {
+				p = int(st.parent.id)
+			}
+			o := 0
+			if sc.streams[st.id] == st {
+				o = 1
+			}
+			out = append(out, [4]int{int(st.id), p, int(st.weight), o})
+		}
+		res <- out
+	}
+	select {
+	case sc.testHookCh <- fn:
+	case <-timeAfterMs(deadlineMs):
+		return nil, false
+	}
+	select {
+	case rows = <-res:
+		return rows, true
+	case <-timeAfterMs(deadlineMs):
+		return nil, false
+	}
 }
